@@ -16,7 +16,7 @@ class C21(Prop):
   rule = ("Hypothesis-generated histories on a decorated chart hosted on an instrumented "
           "HsmWithQueues with live_spy and/or live_trace on and harness callbacks registered (in half of the cases "
           "the spy callback reacts to entry/exit lines by scribbling on the chart), "
-          "under a generated clock substituted for datetime.now inside miros.hsm: strictly "
+          "in half of the queued-host cases after 1-2 posts or deferrals made before start_at (the lines start_at shows in spy() in front of START are expected live too), under a generated clock substituted for datetime.now inside miros.hsm: strictly "
           "increasing, coarse (advances every 7th or 40th reading, so several steps share a "
           "timestamp), constant, running backwards, set back two seconds every fifth reading, or in no order at all. Oracle: the live-spy callback stream equals the concatenation "
           "of every step's spy log (as C19 computes it) and the live-trace callback stream equals "
@@ -33,8 +33,10 @@ class C21(Prop):
   def strategy(self, tier):
     return st.tuples(spytrace.history(tier), st.sampled_from(CLOCKS),
                      st.sampled_from([(True, True), (True, False), (False, True)]),
-                     st.sampled_from(["queued", "queued", "ao"]), st.booleans()).map(
-      lambda t: dict(t[0], clock=t[1], live=list(t[2]), host=t[3], reactive=t[4]))
+                     st.sampled_from(["queued", "queued", "ao"]), st.booleans(),
+                     st.sampled_from([[], [], [], ["post_fifo"], ["post_lifo", "post_fifo"], ["defer", "post_fifo"]])).map(
+      lambda t: dict(t[0], clock=t[1], live=list(t[2]), host=t[3], reactive=t[4],
+                     pre_posts=[[k, t[0]["spec"]["sigs"][0]] for k in t[5]]))
 
   def check(self, case, stats):
     if case.get("host") == "ao":
@@ -75,7 +77,18 @@ class C21(Prop):
     classes = ["clock_" + case["clock"], "host_" + (host or "queued")]
     try:
       try:
+        pre = case.get("pre_posts") if host is None else None
+        for op in pre or ():
+          # posts and deferrals made before start_at (live output already on)
+          run.model.external(op)
+          run.real.apply(op)
         run.start()
+        if pre:
+          # whatever start_at puts into the spy in front of START is shown live as well
+          full = run.real.chart.spy()
+          if "START" in full:
+            run.exp_live_spy[0:0] = full[:full.index("START")]
+          classes.append("posts_before_start")
         self.compare(run, "start_at", live_spy, live_trace, stats)
         for idx, op in enumerate(case["ops"]):
           r = run.apply(op)
